@@ -375,7 +375,8 @@ EXPORT errno_t _qsort_s_chk(void *base, rsize_t nmemb, rsize_t size,
         BND_CHK_PTR_BOUNDS(base, nmemb * size);
     } else {
         rsize_t basesz = nmemb * size;
-        if (unlikely(basesz > basebos)) {
+        /* nmemb * size may wrap: compare without multiplying */
+        if (unlikely(size != 0 && nmemb > basebos / size)) {
             invoke_safe_str_constraint_handler("qsort_s: nmemb*size exceeds sizeof base",
                                                NULL, ESNOSPC);
             return RCNEGATE(ESNOSPC);
